@@ -30,6 +30,15 @@ class NS:
         return "NS(" + ", ".join(f"{k}={v!r}" for k, v in self.__dict__.items()) + ")"
 
 
+class Rec(list):
+    """synthetic record: behaves like a CSV line (a list) and carries ghost attributes"""
+    def __hash__(self):
+        return id(self)
+
+    def __eq__(self, o):
+        return self is o
+
+
 class Opaque:
     def __init__(self, n):
         self.n = n
@@ -109,7 +118,10 @@ class Builder:
             n = max(0, min(int(n), 8))
             out = []
             for i in range(n):
-                o = self.make(f"obj:{cn}", f"{name}.{i}", {}, depth + 1)
+                if cn in self.class_modules:
+                    o = self.make(f"obj:{cn}", f"{name}.{i}", {}, depth + 1)
+                else:
+                    o = Rec()
                 memo = None
                 for k, lst in values.items():
                     if k.startswith(name + "[*]."):
@@ -119,6 +131,9 @@ class Builder:
                             memo = v
                         else:
                             self.setattr_raw(o, f, v)
+                if isinstance(o, Rec):
+                    o.extend(["x"] * int(getattr(o, "g_len", 0) or 0))
+                    o.g_idx = i
                 out.append([o, memo] if typ.startswith("pairlist[") else o)
             self.objlists.append((cn, out, typ.startswith("pairlist[")))
             return out
@@ -234,6 +249,9 @@ class Builder:
     def setattr_raw(o, name, v):
         """set the attribute, going around read-only / validating properties by writing the backing field"""
         c = type(o)
+        if isinstance(o, Rec):
+            object.__setattr__(o, name, v)
+            return
         prop = getattr(c, name, None)
         if isinstance(prop, property):
             try:
@@ -264,6 +282,16 @@ class MacroExpander(ast.NodeTransformer):
                         return copy.deepcopy(sub[n.id])
                     return n
             return Sub().visit(tree)
+        return node
+
+
+class ImpliesRewriter(ast.NodeTransformer):
+    """implies(a, b) -> (not a) or b   so that b is only evaluated when a holds (as the SMT reading intends)"""
+    def visit_Call(self, node):
+        self.generic_visit(node)
+        if isinstance(node.func, ast.Name) and node.func.id == "implies" and len(node.args) == 2:
+            return ast.BoolOp(op=ast.Or(), values=[ast.UnaryOp(op=ast.Not(), operand=node.args[0]),
+                                                   ast.Call(func=ast.Name(id="bool", ctx=ast.Load()), args=[node.args[1]], keywords=[])])
         return node
 
 
@@ -331,12 +359,13 @@ def spec_env(window):
     return {"forall_int": forall_int, "exists_int": exists_int, "implies": lambda a, b: (not a) or bool(b),
             "iff": lambda a, b: bool(a) == bool(b), "tag": tag, "truthy": bool, "str_of": lambda v: f"{v}",
             "strip": lambda s: s.strip(), "seq_contains": lambda c, x: x in c, "same": lambda a, b: a is b or a == b,
-            "is_fresh": lambda v: True, "ufun_bool": ufun, "ufun_val": ufun, "ufun_int": ufun, "ufun_str": ufun}
+            "is_fresh": lambda v: True, "strictly_increasing": lambda xs: all(a < b for a, b in zip(xs, xs[1:])), "ufun_bool": ufun, "ufun_val": ufun, "ufun_int": ufun, "ufun_str": ufun}
 
 
 def compile_clause(text, macros, roots):
     tree = ast.parse(text.strip(), mode="eval")
     tree.body = MacroExpander(macros).visit(tree.body)
+    tree.body = ImpliesRewriter().visit(tree.body)
     tree.body = OldRewriter(roots).visit(tree.body)
     ast.fix_missing_locations(tree)
     return compile(tree, "<clause>", "eval")
@@ -372,6 +401,38 @@ def run_case(job, case, builder, unit_cls, fn_name, params, kwonly):
                 result = f(*args, **kwargs)
     except Exception as e:   # the function under test raised
         raised = e
+    import inspect
+    if raised is None and inspect.isgenerator(result):
+        items = []
+        try:
+            with contextlib.redirect_stdout(io.StringIO()):
+                for it in result:
+                    items.append(it)
+        except Exception as e:
+            raised = e
+        result = items
+
+    def to_indices(lst):
+        rl = job.get("record_list")
+        recs = eval(rl, {}, env) if rl else []
+        outl = []
+        for it in lst or []:
+            k = next((j for j, r in enumerate(recs) if r is it), None)
+            outl.append(k if k is not None else -1)
+        return outl
+    if job.get("yield_to"):
+        tgt = ast.parse(job["yield_to"], mode="eval").body
+        base = eval(compile(ast.Expression(tgt.value), "<y>", "eval"), {}, env)
+        builder.setattr_raw(base, tgt.attr, to_indices(result if isinstance(result, list) else []))
+    for pth in job.get("record_lists", []):
+        try:
+            tgt = ast.parse(pth, mode="eval").body
+            base = eval(compile(ast.Expression(tgt.value), "<y>", "eval"), {}, env)
+            cur = eval(pth, {}, env)
+            if cur is not None:
+                builder.setattr_raw(base, tgt.attr, to_indices(cur))
+        except Exception:
+            pass
     out["outcome"] = "normal" if raised is None else f"raised:{type(raised).__name__}"
     if raised is not None:
         out["exception"] = f"{type(raised).__name__}: {raised}"[:300]
